@@ -382,14 +382,14 @@ PROPS["C19"] = {
 PROPS["C20"] = {
     "confirm_reruns": True,
     "id": "C20",
-    "lean_modules": ["JT.Props.C20", "JT.Props.C01"],
-    "extractors": ["termdefaults", "replytable"],
+    "lean_modules": ["JT.Props.C20", "JT.Props.C01", "JT.Props.C20Src"],
+    "extractors": ["termdefaults", "replytable", "golean"],
     "functional_ops": ["tgen", "texp"],
     "rule": ("in-process: terminal.New(WithHeader(version, phone)) for versions 2011/2013/2019; EXHAUSTIVELY every default command (24) of every version alone and all in one sequence; serial wrap (65533..2); random decimal phones of 1..12 (2019: 1..20) digits incl. leading zeros, "
              "every two-digit phone for both layouts; sequences of 1..4 commands mixing default bodies with custom bodies of 0..1023 bytes (escape-dense ones, random command IDs) after 0..65534 earlier frames; "
              "ExpectedReply for every command the server answers (derived from the server's default table) x versions x platform serials {0,2,65535,random}. Oracle: the real decoder accepts every frame with that ID, phone, layout, next serial; default bodies parse with "
              "the matching type and re-encode identically; ExpectedReply(seq<=3) equals the frame a live server sends on a connection that has answered seq frames before. non-trivial = every case."),
-    "technique": "Lean 4 proof about a model of WithHeader/CreateCommandData on top of the C01 codec theorems, with the simulator's default table and the server's reply table regenerated by execution + differential correspondence (frames, ExpectedReply vs the reply model of C06) + live-server oracle",
+    "technique": "Lean 4 proof about Terminal.CreateCommandData as TRANSLATED from the Go source on every run, composed with the translated Header.Encode / JTMessage.Decode (source_command_decodes, source_serials_consecutive), and about a model of WithHeader/CreateCommandData on top of the C01 codec theorems, with the simulator's default table and the server's reply table regenerated by execution + differential correspondence (frames, ExpectedReply vs the reply model of C06) + live-server oracle",
     "level_text": ("Machine-checked Lean 4 theorems: for EVERY decimal phone of at most 12 (2019: 20) digits, every command ID, every custom body of 0..1023 bytes and every simulator state, the generated frame decodes with that ID, the BCD of the zero-padded phone, the version's header layout, "
                    "the next serial (mod 2^16), no fragmentation and the identical body; serials of a command sequence are consecutive; the decoded phone string is the given one without leading zeros; the hand-assembled 2011/2013 template frame of WithHeader (manual checksum escape) decodes for every phone; "
                    "every default body fits a frame and the simulator's and the server's reply IDs agree (tables regenerated on every run, kernel-evaluated). "
@@ -405,7 +405,7 @@ PROPS["C20"] = {
 PROPS["C10"] = {
     "confirm_reruns": True,
     "id": "C10",
-    "lean_modules": ["JT.Props.C10", "JT.Props.C03", "JT.Props.C05", "JT.Props.C02", "JT.Props.C10Src"],
+    "lean_modules": ["JT.Props.C10", "JT.Props.C03", "JT.Props.C05", "JT.Props.C02", "JT.Props.C10Src", "JT.Props.C04Src"],
     "extractors": ["golean"],
     "functional_ops": ["hostile"],
     "rule": ("real server subprocesses: the attachment server (five dialects, default file handler, scratch cwd), the JT808 server with default handlers and with README-style handlers that Parse+String every body. "
